@@ -38,8 +38,8 @@ ASSUMPTIONS = [
 MIN_EVENTS = {"query results compared with the script": {"quick": 3000, "thorough": 50000}, "support decisions compared with the table": {"quick": 500, "thorough": 9000}}
 
 NAMES = [
-    ("kitty", ["0.32.2", "0.20.0", "0.19.3", "0.25.0", "0.26.1", "nightly", "0.21", "1.0.0", "0.20.0-rc1"]),
-    ("Konsole", ["22.04.0", "22.04.3", "23.08.1", "21.12.3", "22.03.90", "dev"]),
+    ("kitty", ["0.32.2", "0.20.0", "0.19.3", "0.25.0", "0.26.1", "nightly", "0.21", "1.0.0", "0.20.0-rc1", "0.20", "0.19", "1"]),
+    ("Konsole", ["22.04.0", "22.04.3", "23.08.1", "21.12.3", "22.03.90", "dev", "22.04", "22.03", "23"]),
     ("WezTerm", ["20230712-072601-f4abf8fd", "nightly"]),
     ("iTerm2", ["3.4.19", "3.5.0beta"]),
     ("xterm", ["388"]),
@@ -54,12 +54,14 @@ NAMES = [
 
 
 def version_tuple(v):
+    """'0.20' is the same version as '0.20.0' (compared component-wise, missing = 0)."""
     if v is None:
         return None
     try:
-        return tuple(map(int, v.split(".")))
+        t = tuple(map(int, v.split(".")))
     except ValueError:
         return None
+    return t + (0,) * (3 - len(t))
 
 
 def plan(tier, seed):
